@@ -354,7 +354,7 @@ def op_create(w, op, mods):
     run.event(op.get("c", 0), "create", p, "ok", "%s:%d" % (op["entry"], tab.shape[0]))
     if guard is not None:
         run.checks += 1
-        bad = present.changed(guard)
+        bad = present.changed(guard, run)
         if bad:
             run.fail("own.rec.write", {"entry": op["entry"], "text": bool(delim), "present": guard["kind"]},
                      "%s (%s) modified the caller's table (%s): %s" % (op["entry"], "text" if delim else "binary", guard["kind"], bad))
@@ -608,7 +608,7 @@ def op_write(w, op, mods):
         err = e
     if guard is not None and err is None:
         run.checks += 1
-        bad = present.changed(guard)
+        bad = present.changed(guard, run)
         if bad:
             run.fail("own.rec.write", {"entry": h["kind"] + ".write", "text": bool(delim), "present": guard["kind"]},
                      "%s.write (%s) modified the caller's table (%s): %s" % (h["kind"], "text" if delim else "binary", guard["kind"], bad))
@@ -733,7 +733,7 @@ def op_append(w, op, mods):
         err = e
     if guard is not None and err is None:
         run.checks += 1
-        bad = present.changed(guard)
+        bad = present.changed(guard, run)
         if bad:
             run.fail("own.rec.write", {"entry": entry, "text": bool(delim), "present": guard["kind"]},
                      "%s (%s) modified the caller's table (%s): %s" % (entry, "text" if delim else "binary", guard["kind"], bad))
